@@ -656,6 +656,8 @@ pub mod mustrun {
 }
 #[cfg(feature = "mustrun")]
 mod mustpairs;
+#[cfg(feature = "mustconst")]
+mod mustconst;
 
 #[derive(Clone, Copy)]
 #[repr(transparent)]
@@ -665,7 +667,19 @@ unsafe impl Pod for U8 {}
 impl G for U8 { const SZ: usize = 1; const AL: usize = 1; }
 
 fn main() {
-  std::panic::set_hook(Box::new(|_| {}));
+  // an unwinding panic is caught by the call site; a non-unwinding one (abort) is attributed to the
+  // call that followed the last emitted line
+  std::panic::set_hook(Box::new(|info| {
+    let msg = info.to_string();
+    if msg.contains("unsafe precondition") || msg.contains("cannot unwind") || msg.contains("non-unwinding") {
+      unsafe {
+        if let Some(o) = OUT.as_mut() {
+          let _ = writeln!(o, "ABORT after-line-above non-unwinding-panic");
+          let _ = o.flush();
+        }
+      }
+    }
+  }));
   let args: Vec<String> = std::env::args().collect();
   let cfg: u32 = args.get(1).map(|s| s.parse().unwrap()).unwrap_or(0);
   let maxlen: usize = args.get(2).map(|s| s.parse().unwrap()).unwrap_or(6);
@@ -676,9 +690,12 @@ fn main() {
   }
   let mode = args.get(3).map(|s| s.as_str()).unwrap_or("all");
   if mode == "must" {
-    #[cfg(feature = "mustrun")]
+    #[cfg(all(feature = "mustrun", not(feature = "mustconst")))]
     mustpairs::run_must(maxlen);
+    #[cfg(feature = "mustconst")]
+    mustconst::run_must_const();
   } else {
+    #[cfg(not(feature = "mustrun"))]
     types::run_all(maxlen);
     run_prims(maxlen > 6);
   }
@@ -710,6 +727,7 @@ min_const_generics = ["bytemuck/min_const_generics"]
 must_cast = ["bytemuck/must_cast"]
 must_cast_extra = ["bytemuck/must_cast_extra"]
 mustrun = ["bytemuck/must_cast", "bytemuck/must_cast_extra"]
+mustconst = ["mustrun"]
 all_stable = ["bytemuck/latest_stable_rust", "bytemuck/extern_crate_alloc", "bytemuck/extern_crate_std"]
 
 [profile.dev]
@@ -717,6 +735,9 @@ opt-level = 0
 debug = 0
 incremental = false
 overflow-checks = true
+# std's own precondition checks (from_raw_parts etc.) would abort the harness on the first
+# misaligned view; the harness observes and reports such views itself
+debug-assertions = false
 
 [profile.release]
 opt-level = 2
@@ -734,6 +755,7 @@ incremental = false
         t.append("impl GP for %s { const PAT: Self = %s([%s]); }" % (n, n, ", ".join(str((i * 29 + s * 7 + 3) % 256) for i in range(s))))
     t.append("")
     # pair runners are split into chunks so that rustc can codegen them in parallel units
+    t.append("#[cfg(not(feature = \"mustrun\"))]")
     t.append("pub fn run_all(maxlen: usize) {")
     for (s, a) in types:
         t.append("  run_single::<%s>();" % tname(s, a))
@@ -750,6 +772,7 @@ incremental = false
             t.append("  run_checked::<%s, %s>(maxlen.min(6));" % (tname(s, a), c))
     t.append("}")
     for (s, a) in types:
+        t.append("#[cfg(not(feature = \"mustrun\"))]")
         t.append("#[inline(never)] fn row_%s(maxlen: usize) {" % tname(s, a))
         for (s2, a2) in types:
             t.append("  run_slices::<%s, %s>(maxlen); run_refs::<%s, %s>(); run_values::<%s, %s>();"
@@ -759,6 +782,7 @@ incremental = false
         f.write("\n".join(t) + "\n")
     # must_ runs: exactly the instantiations the compile-verdict run accepted (file of "fn sa aa sb ab" lines)
     m = ["use super::*;", "use super::mustrun::*;", "pub fn run_must(maxlen: usize) {"]
+    mc = ["use super::*;", "use super::mustrun::*;", "pub fn run_must_const() {"]
     if pairs_file and os.path.exists(pairs_file):
         acc = {}
         for line in open(pairs_file):
@@ -769,16 +793,19 @@ incremental = false
             A, B = tname(sa, aa), tname(sb, ab)
             if {141, 142} <= fns:
                 m.append("  must_refs::<%s, %s>();" % (A, B))
-                m.append("  { const S: &%s = &<%s as GP>::PAT; const D: &%s = bytemuck::must_cast_ref::<%s, %s>(S); const_ref::<%s, %s>(S, D); }" % (A, A, B, A, B, A, B))
+                mc.append("  { const S: &%s = &<%s as GP>::PAT; const D: &%s = bytemuck::must_cast_ref::<%s, %s>(S); const_ref::<%s, %s>(S, D); }" % (A, A, B, A, B, A, B))
             if {143, 144} <= fns:
                 m.append("  must_slices::<%s, %s>(maxlen);" % (A, B))
-                m.append("  { const S: &[%s] = &[<%s as GP>::PAT; 3]; const D: &[%s] = bytemuck::must_cast_slice::<%s, %s>(S); const_slice::<%s, %s>(S, D); }" % (A, A, B, A, B, A, B))
+                mc.append("  { const S: &[%s] = &[<%s as GP>::PAT; 3]; const D: &[%s] = bytemuck::must_cast_slice::<%s, %s>(S); const_slice::<%s, %s>(S, D); }" % (A, A, B, A, B, A, B))
             if 145 in fns:
                 m.append("  must_values::<%s, %s>();" % (A, B))
-                m.append("  { const S: %s = <%s as GP>::PAT; const D: %s = bytemuck::must_cast::<%s, %s>(S); const_value::<%s, %s>(S, D); }" % (A, A, B, A, B, A, B))
+                mc.append("  { const S: %s = <%s as GP>::PAT; const D: %s = bytemuck::must_cast::<%s, %s>(S); const_value::<%s, %s>(S, D); }" % (A, A, B, A, B, A, B))
     m.append("}")
+    mc.append("}")
     with open(os.path.join(out, "src", "mustpairs.rs"), "w") as f:
         f.write("\n".join(m) + "\n")
+    with open(os.path.join(out, "src", "mustconst.rs"), "w") as f:
+        f.write("\n".join(mc) + "\n")
 
 
 if __name__ == "__main__":
